@@ -166,7 +166,19 @@ class Algebra:
                 if nm == "numpy.nansum":
                     self.assumptions.add("nansum == sum on arrays whose invalid rows were zero-filled in __init__")
                 base, R = self.split_rows(x)
-                return self._sum(R, self.simplify_row(self.row(base)))
+                rnf = self.simplify_row(self.row(base))
+                rest = args[1:] if nm in SUMS else args
+                axis = tm.kwarg(t, "axis")
+                if axis is None and rest:
+                    axis = rest[0]
+                per_column = axis is not None and tm.is_const(axis, 0)
+                if axis is not None and not per_column and not (axis == tm.NONE):
+                    raise Unknown("reduction over axis %s" % tm.show(axis)[:20])
+                lin = self._sum(R, rnf)
+                if per_column or getattr(self, "ndim", None) == 1 or _one_dim(rnf):
+                    return lin
+                # no axis: rows AND columns are reduced together; equals the per-column value only for one column
+                return {("ALLCOLUMNS", _freeze(lin)): 1}
             if nm == "numpy.bincount" and args:
                 w = tm.kwarg(t, "weights")
                 if w is None and len(args) > 1:
@@ -187,6 +199,16 @@ class Algebra:
         if t.op == "sub" and t.args[0].op == "attr" and t.args[0].args[1] == "shape" and tm.is_const(t.args[1], 0):
             # X.shape[0]: number of rows
             return {("COUNT", "ALL"): 1}
+        if t.op == "attr" and t.args[1] == "size":
+            x = t.args[0]
+            if x.op == "param" and x.args[0] in self.rows_params:
+                return {("COUNT", "CELL"): 1}  # row-id arrays are one-dimensional
+            base, R = self.split_rows(x)
+            self.row(base)  # must be a row array
+            if getattr(self, "ndim", None) == 1:
+                return {("COUNT", R): 1}
+            # rows x columns: equals the number of rows only for a single column
+            return {("SIZE", R): 1}
         if t.op in ("param", "attr") and (t.args[-1] == "N" or (t.op == "param" and t.args[0] == "N")):
             self.assumptions.add("an explicit N is the number of rows")
             return {("COUNT", "ALL"): 1}
@@ -255,6 +277,19 @@ class Algebra:
         return {("SUM", R, rnf): 1}
 
 
+def _one_dim(rnf):
+    """Is a row array one-dimensional by contract (weights are; fact arrays may have several columns)?"""
+    if rnf[0] in ("VALS", "VALID", "PARAM"):
+        return rnf[1] in ("weights", "weight")
+    if rnf[0] == "ALLCOLS":
+        return True
+    if rnf[0] in ("NOT", "ISNAN"):
+        return _one_dim(rnf[1])
+    if rnf[0] in ("AND", "MUL", "ZEROAT", "NANAT"):
+        return all(_one_dim(x) for x in rnf[1:] if isinstance(x, tuple))
+    return False
+
+
 def strip_wrappers(t):
     while t.op == "call" and (tm.callee_name(t) or "") in (".copy", ".astype"):
         t = t.args[0].args[0]
@@ -272,6 +307,10 @@ def to_all(lin):
             return 1
         if k[0] == "COUNT":
             return ("COUNT", "ALL")
+        if k[0] == "SIZE":
+            return ("SIZE", "ALL")
+        if k[0] == "ALLCOLUMNS":
+            return ("ALLCOLUMNS", tuple((conv(a), c) for a, c in k[1]))
         if k[0] == "SUM":
             return ("SUM", "ALL", k[2])
         if k[0] == "MULS":
@@ -290,6 +329,10 @@ def erase_R(lin):
             return 1
         if k[0] == "COUNT":
             return ("COUNT",)
+        if k[0] == "SIZE":
+            return ("SIZE",)
+        if k[0] == "ALLCOLUMNS":
+            return ("ALLCOLUMNS", tuple((conv(a), c) for a, c in k[1]))
         if k[0] == "SUM":
             return ("SUM", k[2])
         if k[0] == "MULS":
@@ -315,6 +358,10 @@ def show_atom(k):
         return "1"
     if k[0] == "COUNT":
         return "COUNT_%s" % k[-1] if len(k) > 1 else "COUNT"
+    if k[0] == "SIZE":
+        return "ROWSxCOLUMNS_%s" % k[-1] if len(k) > 1 else "ROWSxCOLUMNS"
+    if k[0] == "ALLCOLUMNS":
+        return "OVER-ALL-COLUMNS(%s)" % show_lin(dict(k[1]))
     if k[0] == "SUM":
         return "SUM%s(%s)" % ("_" + k[1] if len(k) == 3 else "", show_row(k[-1]))
     if k[0] == "MULS":
